@@ -205,6 +205,15 @@ def _m_upper(it, v, args, kwargs, node):
     return seqops.opaque(it, v.kind, v.length(), ('upper', v), deps=(v,), tags=v.tags)
 
 
+def _m_recase(name):
+    # capitalize / title / swapcase / casefold of text: the same number of characters for the ASCII text these tools handle
+    def f(it, v, args, kwargs, node):
+        if v.is_lit():
+            return lit(getattr(v.lit_value(), name)())
+        return seqops.opaque(it, v.kind, v.length(), (name, v), deps=(v,), tags=v.tags)
+    return f
+
+
 def _m_lower(it, v, args, kwargs, node):
     if v.is_lit():
         return lit(v.lit_value().lower())
@@ -420,7 +429,8 @@ SEQ_METHODS = {
     'decode': _m_decode, 'encode': _m_encode, 'startswith': _m_startswith, 'endswith': _m_endswith,
     'isdigit': _charclass('isdigit'), 'isnumeric': _charclass('isnumeric'), 'isdecimal': _charclass('isdecimal'),
     'isalpha': _charclass('isalpha'), 'isalnum': _charclass('isalnum'), 'isspace': _charclass('isspace'),
-    'upper': _m_upper, 'lower': _m_lower, 'rstrip': _m_strip('rstrip'), 'lstrip': _m_strip('lstrip'),
+    'upper': _m_upper, 'lower': _m_lower, 'capitalize': _m_recase('capitalize'), 'title': _m_recase('title'),
+    'swapcase': _m_recase('swapcase'), 'rstrip': _m_strip('rstrip'), 'lstrip': _m_strip('lstrip'),
     'strip': _m_strip('strip'), 'ljust': _m_just('<'), 'rjust': _m_just('>'), 'zfill': _m_zfill, 'partition': _m_partition,
     'format': _m_format, 'translate': _m_translate, 'join': _m_join, 'hex': _m_hex, 'split': _m_generic_seq('split'),
     'replace': _m_replace, 'find': _m_generic_seq('find'), 'count': _m_generic_seq('count'),
